@@ -454,3 +454,36 @@ seed('c03-rrtconnect-clear-keeps-tree-distance', 'C03', [(RRTCC, "    distanceBe
 seed('c03-fmt-clear-keeps-open-set', 'C03', [(FMTC, "    Open_.clear();\n    neighborhoods_.clear();\n\n    collisionChecks_ = 0;", "    neighborhoods_.clear();\n\n    collisionChecks_ = 0;")], 'R03l')
 seed('c03-vfrrt-clear-keeps-lambda', 'C03', [(VFRC, "    lambda_ = initialLambda_;\n", "")], 'R03l')
 seed('c03-n-vfrrt-clear-reordered', 'C03', [(VFRC, "    lambda_ = initialLambda_;\n    step_ = 0;\n", "    step_ = 0;\n    lambda_ = initialLambda_;\n")], None)
+
+# ---- round-4 rules ------------------------------------------------------------------------------------------------
+LBTC = 'src/ompl/geometric/planners/rrt/src/LBTRRT.cpp'
+PLNC = 'src/ompl/base/src/Planner.cpp'
+GPDST = 'src/ompl/geometric/planners/pdst/src/PDST.cpp'
+AITG = 'src/ompl/geometric/planners/informedtrees/aitstar/src/ImplicitGraph.cpp'
+EITG = 'src/ompl/geometric/planners/informedtrees/eitstar/src/RandomGeometricGraph.cpp'
+BITC = 'src/ompl/geometric/planners/informedtrees/src/BITstar.cpp'
+PCC = 'src/ompl/control/src/PathControl.cpp'
+CSI = 'src/ompl/control/src/SpaceInformation.cpp'
+PGC = 'src/ompl/geometric/src/PathGeometric.cpp'
+PSC = 'src/ompl/geometric/src/PathSimplifier.cpp'
+seed('c01-lbtrrt-checks-other-pair', 'C01', [(LBTC, "            if (checkMotion(potential_parent, motion))", "            if (checkMotion(parent, motion))")], 'R01n')
+seed('c01-prm-walk-keeps-start-vertex', 'C01', [(PRMC, "                nn_->add(m);\n                v = m;\n", "                nn_->add(m);\n")], 'R01o')
+seed('c02-interpolate-truncates-steps', 'C02', [(PCC, "auto steps = (int)floor(0.5 + controlDurations_[i] / res);", "auto steps = (int)(controlDurations_[i] / res);")], 'R02h')
+seed('c02-propagate-one-long-step', 'C02', [(CSI, "        statePropagator_->propagate(state, control, signedStepSize, result);\n        for (int i = 1; i < steps; ++i)\n            statePropagator_->propagate(result, control, signedStepSize, result);", "        statePropagator_->propagate(state, control, steps * signedStepSize, result);")], 'R02i')
+seed('c03-nextgoal-inner-loop-ignores-ptc', 'C03', [(PLNC, "} while (!ptc && sampledGoalsCount_ < goal->maxSampleCount() && goal->canSample());", "} while (sampledGoalsCount_ < goal->maxSampleCount() && goal->canSample());")], 'R03m')
+seed('c03-pdst-remeasure-wrong-variable', 'C03', [(GPDST, "!goal->isSatisfied(lastGoalMotion_->endState_, &closestDistanceToGoal);", "!goal->isSatisfied(lastGoalMotion_->endState_, &distanceToGoal);")], 'R03n')
+seed('c03-ait-graph-clear-keeps-pruned-goals', 'C03', [(AITG, "                prunedGoalVertices_.clear();\n                numSampledStates_ = 0u;", "                numSampledStates_ = 0u;")], 'R03o')
+seed('c03-ait-graph-clear-keeps-batch', 'C03', [(AITG, "                vertices_.clear();\n                newSamples_.clear();\n", "                vertices_.clear();\n")], 'R03o')
+seed('c03-eit-invalid-sample-kept-on-interrupt', 'C03', [(EITG, "                    if (!foundValidSample)\n                    {\n                        return nullptr;\n                    }\n", "")], 'R03p')
+seed('c03-n-eit-reject-loop-positive-test', 'C03', [(EITG, "                    if (!foundValidSample)\n                    {\n                        return nullptr;\n                    }\n", "                    if (foundValidSample == false)\n                    {\n                        return nullptr;\n                    }\n")], None)
+seed('c04-bitstar-cost-without-goal', 'C04', [(BITC, "                                // It is! Save this as a better goal:\n                                goalUpdated = true;\n                                newBestGoal = *it;\n                                newCost = newBestGoal->getCost();", "                                // It is! Save this as a better goal:\n                                goalUpdated = true;\n                                newCost = (*it)->getCost();")], 'R04j')
+seed('c04-lbtrrt-apx-from-lb', 'C04', [(LBTC, "    child->costApx_ = parent->costApx_ + dist;", "    child->costApx_ = parent->costLb_ + dist;")], 'R04k')
+seed('c17-repair-accepts-without-outgoing-check', 'C17', [(PGC, "                    if (si_->checkMotion(states_[i - 1], states_[i]) &&\n                        // the penultimate state needs an additional check\n                        // (see comment at the top of outermost for-loop)\n                        (i < n1 - 1 || si_->checkMotion(states_[i], states_[i + 1])))", "                    if (si_->checkMotion(states_[i - 1], states_[i]))")], 'R17i')
+seed('c17-n-repair-acceptance-demorgan', 'C17', [(PGC, "                    if (si_->checkMotion(states_[i - 1], states_[i]) &&\n                        // the penultimate state needs an additional check\n                        // (see comment at the top of outermost for-loop)\n                        (i < n1 - 1 || si_->checkMotion(states_[i], states_[i + 1])))", "                    if (!(!si_->checkMotion(states_[i - 1], states_[i]) ||\n                          (i == n1 - 1 && !si_->checkMotion(states_[i], states_[i + 1]))))")], None)
+seed('c17-partial-shortcut-opening-piece-reversed', 'C17', [(PSC, "obj_->motionCost(s0, states[pos0 + 1]);", "obj_->motionCost(states[pos0], s0);")], 'R17f')
+seed('c05-dubins3d-scratch-in-caller-storage', 'C05', [(D3, "                State *test = si_->allocState();\n\n                for (int j = 1; j < nd; ++j)", "                State *test = (lastValid.first != nullptr) ? lastValid.first : si_->allocState();\n\n                for (int j = 1; j < nd; ++j)")], 'R05b')
+GNATH = 'src/ompl/datastructures/NearestNeighborsGNAT.h'
+GNATN = 'src/ompl/datastructures/NearestNeighborsGNATNoThreadSafety.h'
+seed('c10-gnat-leaf-reserve-capacity-only', 'C10', [(GNATH, "data_.reserve(std::max((unsigned int)capacity, degree_) + 1);", "data_.reserve(capacity + 1);")], 'R10h')
+seed('c10-gnatnts-child-reserve-dropped', 'C10', [(GNATN, "                    child->data_.reserve(std::max(gnat.maxNumPtsPerLeaf_, child->degree_) + 1);\n", "")], 'R10h')
+seed('c10-n-gnat-leaf-reserve-commuted', 'C10', [(GNATH, "data_.reserve(std::max((unsigned int)capacity, degree_) + 1);", "data_.reserve(std::max(degree_, (unsigned int)capacity) + 1);")], None)
